@@ -130,7 +130,7 @@ func compareWorlds(a, b *World) {
 			case "man":
 				x, ok := m.mans[d]
 				switch {
-				case !ok && m.isChildOfPresent(d):
+				case !ok && (m.isChildOfPresent(d) || m.ghosts[d]):
 					return "unsure"
 				case !ok:
 					return "absent"
@@ -176,7 +176,7 @@ func compareWorlds(a, b *World) {
 			if sa != sb || sa == "unsure" || strings.Contains(sa, ",") {
 				continue // the histories legitimately diverged (a collection removed content in one store only)
 			}
-			diffs = append(diffs, fmt.Sprintf("%s: dir %q, mem %q", k, va, vb))
+			diffs = append(diffs, fmt.Sprintf("%s: dir %q, mem %q (model: dir %s, mem %s)", k, va, vb, sa, sb))
 		}
 		if len(diffs) > 0 {
 			sort.Strings(diffs)
